@@ -116,7 +116,8 @@ def gen(rng, tier):
            'method': rng.choice(['none', 'before', 'after', 'after']),
            'ambient': rng.choice([[], ['amb'], ['left']])}
   return {'nprod': nprod, 'ncons': ncons, 'binds': binds, 'ops': ops,
-          'dyn': dyn}
+          'dyn': dyn,
+          'skip_unknown': rng.choice([None, None, 'true', 'list', 'set'])}
 
 
 def _count_eval(v, out):
@@ -297,7 +298,13 @@ def run(case):
                                    b['cons'], b['param'],
                                    cfgtext.render_value(b['val'])))
     store.setdefault((b['scope'], b['cons']), {})[b['param']] = b['val']
-  gin.parse_config('\n'.join(lines))
+  # (every name in the text is known: skip_unknown, in any form, changes nothing)
+  skip = {None: None, 'true': True, 'list': ['no_such_name_c04'],
+          'set': {'no_such_name_c04', 'nor.this'}}[case.get('skip_unknown')]
+  if skip is None:
+    gin.parse_config('\n'.join(lines))
+  else:
+    gin.parse_config('\n'.join(lines), skip_unknown=skip)
 
   def applicable(cname, amb):
     out = {}
